@@ -195,6 +195,15 @@ func (v *VerifSupervisor) Step() (ev int, ok bool) {
 	}
 }
 
+// Stop marks run() as returned (what stop() + the run() defers do), so that later injects are no-ops.
+func (v *VerifSupervisor) Stop() {
+	select {
+	case <-v.s.runDone:
+	default:
+		close(v.s.runDone)
+	}
+}
+
 // TakeNotify removes one notification from the buffer, as the notifier goroutine would.
 func (v *VerifSupervisor) TakeNotify() (prev, next ConnState, ok bool) {
 	select {
